@@ -123,6 +123,7 @@ def run(program, res, tier):
     c04._s1c(program, Relabel(res, {"*": "C01-S4"}))
     from . import c08 as _c08
     _c08._s8_empty_request(program, Relabel(res, {"*": "C01-S4"}))
+    _c08._s9_join_terms_qualified(program, Relabel(res, {"*": "C01-S4"}))
     f = sqlexpr.confirm_lookup_model(program)
     res.analysed(f)
     rows = sqlexpr.catalog(program)
